@@ -353,6 +353,9 @@ fn run(faulty: bool) {
     if let Err(e) = zoo::with_transport(tk, Run { faulty, feats, capacity }) {
         violation("transport-construction-failed", "zoo", e);
     }
+    if !faulty {
+        crate::world::check_nothing_shared("blk", &[0]);
+    }
 }
 
 pub fn honest() {
